@@ -104,10 +104,32 @@ class World:
         return [e for e in self.log if e[0] == "x"]
 
 
+class FakeStreamSocket:
+    """the socket of ledgerblue's TCP transport (DongleServer.socket): blocking unless somebody sets a
+    time limit on it"""
+
+    def __init__(self):
+        self.timeout = None
+
+    def settimeout(self, t):
+        self.timeout = t
+
+    def gettimeout(self):
+        return self.timeout
+
+    def setsockopt(self, *a):
+        pass
+
+    def close(self):
+        pass
+
+
 class Transport:
     def __init__(self, world):
         self.world = world
         self.opened = True
+        if getattr(world, "platform", "ledger") in ("tcp", "sgx"):
+            self.socket = FakeStreamSocket()
 
     def close(self):
         self.world.log.append(("close",))
@@ -164,6 +186,16 @@ class Transport:
             w.log.append(("x", idx, apdu, ("fault", "read"), w.tag))
             w.unplugged = True
             raise_fault("read")
+        if fault is not None and fault[0] == "late":
+            # the other end of a STREAM answers after the time limit somebody put on the socket: the
+            # exchange ends in socket.timeout and the answer is what the next exchange on this
+            # connection reads.  Without a time limit (the unchanged tree) the exchange just waits.
+            sock = getattr(self, "socket", None)
+            if sock is not None and sock.timeout is not None:
+                import socket as _socket
+                w.log.append(("x", idx, apdu, ("fault", "late"), w.tag))
+                w.__dict__.setdefault("unread_answers", []).append(bytes(resp))
+                raise _socket.timeout("timed out")
         if fault is not None and fault[0] == "opbyte":
             resp = bytearray(resp)
             if len(resp) > 2 and resp[2] != fault[1]:
